@@ -432,6 +432,12 @@ func (t *ValueSet) empty() bool {
 // result takes the result that matches this struct type and adapts it
 // if necessary (if the struct type is lifted or so on).
 func (t *ValueSet) result(r Result) Result {
+	// Copy the outputs since we modify them below and the result may be
+	// shared (i.e. memoized by FuncOnce).
+	out := make([]reflect.Value, len(r.out))
+	copy(out, r.out)
+	r.out = out
+
 	// If we aren't lifted, we return the direct struct. We have to unwrap
 	// any pointers. We know this to be true already since we analyzed the
 	// function earlier.
